@@ -948,8 +948,8 @@ def classify(case, mo):
 
 
 def select_for_mode(case, mode, tier):
-    if case.get("_malformed") or case.get("_corpus") or case.get("_nc19d"):
-        return True
+    if case.get("_malformed") or case.get("_corpus") or case.get("_nc19d") or case.get("_boundary"):
+        return True          # (the buffer-boundary cases are exactly what the bounds-checked / interpreted runs are for)
     l, r = key_cols(case)
     if case.get("_rand"):
         return len(l) + len(r) <= 60 and case.get("_n", 0) % 5 == 0
